@@ -24,7 +24,7 @@ import (
 func init() {
 	Props["C15"] = &harness.Prop{
 		ID:             "C15",
-		Rule:           "histories: alphabet of 29 inputs (incl. two pairs of MSM frames with the same type, length and CRC value but different contents, four MSM4/MSM7 frames whose cells and satellites carry the reserved 'invalid' values, three MSM frames that carry a time error from the handler and are also too short to decode) (1005, 1006, MSM4 and MSM7 of GPS, Galileo, GLONASS and BeiDou with cells, four MSM messages whose cell masks have the same value and length but the shapes 2x3, 3x2, 1x6 and 6x1, 1230, an unknown type, non-RTCM text, a CRC-broken frame); every sequence of length <=3 (quick) / <=4 (thorough) through ONE handler at both log levels; each element is decoded (Analyse) and displayed twice; oracle: decoded structure deep-equal and text (without the MSM time lines) equal to those of a fresh handler, second and third display identical, decoded fields after display deep-equal to those of an undisplayed twin, raw bytes unchanged, and every message decoded earlier in the history and still held is displayed again and deep-compared after each later frame (nothing may be shared between messages); value copies of a delivered message: what consumer A does with its copy (String, Analyse, field assignments) leaves consumer B's copy deep-equal to a pristine one, also when A displays first at a different log level or after the message was analysed; each input also decoded and displayed as the first library call of a fresh process (one child process per input and level) and compared with the result after thousands of frames; non-RTCM messages of 1030..65537 bytes delivered by HandleMessages, displayed three times while a second consumer holds a copy. concurrency: two (thorough: also three) threads decoding and displaying frames on separate handlers and on value copies of one message, with scheduling points at every function and loop entry of rtcm/handler, rtcm/utils, rtcm/header and the six MSM and two station packages; every schedule with <=1 (quick) / <=2 (thorough) preemptions; oracle: every result equals the sequential baseline. Non-trivial = histories of length >=2 / distinct schedule traces",
+		Rule:           "histories: alphabet of 29 inputs (incl. two pairs of MSM frames with the same type, length and CRC value but different contents, four MSM4/MSM7 frames whose cells and satellites carry the reserved 'invalid' values, three MSM frames that carry a time error from the handler and are also too short to decode) (1005, 1006, MSM4 and MSM7 of GPS, Galileo, GLONASS and BeiDou with cells, four MSM messages whose cell masks have the same value and length but the shapes 2x3, 3x2, 1x6 and 6x1, 1230, an unknown type, non-RTCM text, a CRC-broken frame); every sequence of length <=3 (quick) / <=4 (thorough) through ONE handler at both log levels; each element is decoded (Analyse) and displayed twice; oracle: decoded structure deep-equal and text (without the MSM time lines) equal to those of a fresh handler, second and third display identical, decoded fields after display deep-equal to those of an undisplayed twin, raw bytes unchanged, and every message decoded earlier in the history and still held is displayed again and deep-compared after each later frame (nothing may be shared between messages); value copies of a delivered message: what consumer A does with its copy (String, Analyse, field assignments) leaves consumer B's copy deep-equal to a pristine one, also when A displays first at a different log level or after the message was analysed; stream histories: every sequence of <=3 of nine inputs, each a stream of its own through HandleMessages on one handler, with every delivered message held and re-examined (raw bytes, text) after each later stream; each input also decoded and displayed as the first library call of a fresh process (one child process per input and level) and compared with the result after thousands of frames; non-RTCM messages of 1030..65537 bytes delivered by HandleMessages, displayed three times while a second consumer holds a copy. concurrency: two (thorough: also three) threads decoding and displaying frames on separate handlers and on value copies of one message, with scheduling points at every function and loop entry of rtcm/handler, rtcm/utils, rtcm/header and the six MSM and two station packages; every schedule with <=1 (quick) / <=2 (thorough) preemptions; oracle: every result equals the sequential baseline. Non-trivial = histories of length >=2 / distinct schedule traces",
 		Assumptions:    []string{"interleavings inside unsynchronised code are explored at function/loop-entry granularity; 'no data race' at the memory-model level is outside a cooperative scheduler and only touched by the auxiliary -race pass", "the two MSM time lines ('Time ...', 'Start of ... week ...') are removed before comparing texts, as the statement excludes them"},
 		Pre:            c15Histories,
 		Scenarios:      c15Scenarios,
@@ -339,6 +339,76 @@ func c15Histories(r *ev.Run) {
 				}
 				r.Count(1, 0, 4, 1)
 			}()
+		}
+	}
+	// stream histories: each input as a stream of its own through HandleMessages on
+	// ONE handler (what the applications run), every delivered message HELD while
+	// later streams are read - the framing code may reuse nothing a held message
+	// still points at
+	{
+		var sub []int
+		for i, in := range alpha {
+			switch in.name {
+			case "1077", "1005", "1074", "1117-short", "1087-short-day7", "1077-short-illegal-ts", "crc-broken", "non-rtcm", "unknown-4001":
+				sub = append(sub, i)
+			}
+		}
+		type heldMsg struct {
+			m    handler.Message
+			raw  []byte
+			text string
+			from string
+		}
+		for _, lvl := range []slog.Level{slog.LevelDebug, slog.LevelInfo} {
+			var nStream int64
+			var rec func(h handler.Handler, hist []string, held []heldMsg, depth int)
+			rec = func(h handler.Handler, hist []string, held []heldMsg, depth int) {
+				if depth == 3 {
+					return
+				}
+				for _, ai := range sub {
+					child := h
+					in := make(chan byte, len(alpha[ai].bytes)+1)
+					for _, b := range alpha[ai].bytes {
+						in <- b
+					}
+					close(in)
+					out := make(chan handler.Message, len(alpha[ai].bytes)+4)
+					names := append(append([]string{}, hist...), alpha[ai].name)
+					var pan interface{}
+					func() {
+						defer func() { pan = recover() }()
+						child.HandleMessages(in, out)
+					}()
+					nStream++
+					if pan != nil {
+						fail("panic in HandleMessages: "+firstLine(fmt.Sprint(pan)), lvl, names, "stream history")
+						continue
+					}
+					nh := append([]heldMsg{}, held...)
+					for m := range out {
+						cl, _, pn := guardM(func() { _ = m.String() })
+						if pn {
+							fail("panic displaying a streamed message "+cl, lvl, names, "stream history")
+							continue
+						}
+						nh = append(nh, heldMsg{m, append([]byte{}, m.RawData...), stripTimeLines(m.String()), alpha[ai].name})
+					}
+					// every message held from earlier streams (and this one) is as delivered
+					for _, k := range nh {
+						var txt string
+						_, _, pn := guardM(func() { txt = stripTimeLines(k.m.String()) })
+						if pn || !bytes.Equal(k.m.RawData, k.raw) || txt != k.text {
+							fail("held-message-changed-while-later-streams-were-read", lvl, names, fmt.Sprintf("message from %s, held since it was delivered by HandleMessages", k.from))
+							break
+						}
+					}
+					rec(child, names, nh, depth+1)
+				}
+			}
+			rec(*handler.New(T0, lvl), nil, nil, 0)
+			r.Count(nStream, 0, nStream*3, nStream)
+			r.DistinctN += nStream
 		}
 	}
 	// each input decoded and displayed as the very first library call of a fresh
